@@ -40,7 +40,8 @@ func (k SettlementKeeper) settleUTXRs(ctx sdk.Context, tenantId uint64) error {
 
 		utxrId := sdk.BigEndianToUint64(iterator.Key())
 		payoutBlock := utxr.CreatedAt + period
-		if payoutBlock > uint64(ctx.BlockHeight()) {
+		// payoutBlock < utxr.CreatedAt: the sum wrapped around, the record is far from mature
+		if payoutBlock < utxr.CreatedAt || payoutBlock > uint64(ctx.BlockHeight()) {
 			logger.Debug("skip payout", "tenant", tenantId, "payoutBlock", payoutBlock, "currentBlock", ctx.BlockHeight())
 			break
 		}
